@@ -17,10 +17,20 @@ _root = None
 TOOL = 3            # sys.monitoring tool id (0..5; 0-2 are conventionally debugger/coverage/profiler)
 
 
+_new = 0
+
+
 def _line(code, line):
+    global _new
     fn = code.co_filename
     if fn.startswith(_root):
         _hits.setdefault(fn[len(_root):], set()).add(line)
+        _new += 1
+        if _new >= 40:
+            # pool workers are ended with SIGTERM and never reach an exit handler: write as we go (each line reports
+            # once, so this happens at most a hundred times per process)
+            _new = 0
+            _dump()
     return sys.monitoring.DISABLE
 
 
